@@ -156,6 +156,101 @@ def main():
                 f.write(json.dumps({'id': shard + n * nshards, 'cls': kind, 'cfg': {'lmtp': True, 'pipelining': False, 'kind': 'smtp', 'deadline': 0,
                                     'stages': ['exit']}, 'ev': ev}, separators=(',', ':')) + '\n')
                 n += 1
+    # ---- HTTP relay against a loopback peer: every status class with / without reply header, and transport failures
+    from harness import hdrv
+    for act in sorted(hdrv.ACTIONS) + ['refuse']:
+        for nr in (1, 2):
+            idx += 1
+            if idx % nshards != shard:
+                continue
+            if act == 'refuse':
+                r = hdrv.HttpRun(['ok200'], refuse=True)
+            else:
+                r = hdrv.HttpRun([act])
+            r.attempt(1, nr)
+            ev = r.run_to_end()
+            stats['executions'] += 1
+            f.write(json.dumps({'id': shard + n * nshards, 'cls': 'http', 'cfg': {'lmtp': False, 'pipelining': False, 'kind': 'http',
+                                'deadline': 1000 + hdrv.HTTP_T, 'stages': [act]}, 'ev': ev}, separators=(',', ':')) + '\n')
+            n += 1
+    # ---- MX relay with a stub resolver: several MX hosts, no MX but A, nothing, resolver error, no domain
+    import slimta.relay.smtp.mx as mxmod
+    from pycares.errno import ARES_ENOTFOUND, ARES_ENODATA, ARES_ETIMEOUT, ARES_ESERVFAIL
+
+    class RR(object):
+        def __init__(self, priority=0, host='', ttl=300):
+            self.priority, self.host, self.ttl = priority, host, ttl
+
+    class Ans(object):
+        def __init__(self, val):
+            self.val = val
+
+        def get(self):
+            if isinstance(self.val, int):
+                raise mxmod.DNSError(self.val)
+            return self.val
+    dns_cases = {
+        'mx3': ({'MX': [RR(20, 'mx-b.example'), RR(10, 'mx-a.example'), RR(30, 'mx-c.example')]}, ['mx-a.example', 'mx-b.example', 'mx-c.example']),
+        'mx1': ({'MX': [RR(5, 'only.example')]}, ['only.example']),
+        'a_only': ({'MX': ARES_ENODATA, 'A': [RR(0, '', 60)]}, ['b.example']),
+        'a_only_nx': ({'MX': ARES_ENOTFOUND, 'A': [RR(0, '', 60)]}, ['b.example']),
+        'nothing': ({'MX': ARES_ENOTFOUND, 'A': ARES_ENOTFOUND}, None),
+        'nodata': ({'MX': ARES_ENODATA, 'A': ARES_ENODATA}, None),
+        'error_mx': ({'MX': ARES_ETIMEOUT}, 'err'),
+        'error_a': ({'MX': ARES_ENODATA, 'A': ARES_ESERVFAIL}, 'err'),
+    }
+    for name, (answers, hosts) in sorted(dns_cases.items()):
+        for attempts in (0, 1, 2, 3, 4):
+            for script in ({}, {'rcpt': [550]}, {'data': 'disconnect'}):
+                idx += 1
+                if idx % nshards != shard:
+                    continue
+                if hosts in (None, 'err') and (attempts > 1 or script):
+                    continue
+                r = rdrv.RelayRun(False, True, [script])
+                chosen = []
+
+                def creator(address, r=r, chosen=chosen):
+                    chosen.append(address[0])
+                    return r.creator(address)
+
+                class StubResolver(object):
+                    @classmethod
+                    def query(cls, qname, qtype, answers=answers):
+                        return Ans(answers[qtype])
+                mxmod.DNSResolver = StubResolver
+                relay = mxmod.MxSmtpRelay(socket_creator=creator, ehlo_as='relay.example', connect_timeout=5, command_timeout=10, data_timeout=25)
+                r.relay = relay
+                r.log(t='peer', stage='dns', i=0, act='code' if hosts != 'err' else 'disconnect',
+                      code=250 if isinstance(hosts, list) else (550 if hosts is None else 0), conn=0, trans=0)
+                # RelayRun.attempt uses self.relay.attempt(env, 0): give the MX relay the attempt number
+                real_attempt = relay.attempt
+                relay.attempt = lambda env, _a, real_attempt=real_attempt, attempts=attempts: real_attempt(env, attempts)
+                r.attempt(1, 1)
+                ev = r.run_to_end()
+                if isinstance(hosts, list) and chosen:
+                    ev.insert(-1, {'t': 'mx', 'n': len(hosts), 'attempts': attempts, 'rank': hosts.index(chosen[0]) if chosen[0] in hosts else -1, 'now': 0})
+                stats['executions'] += 1
+                f.write(json.dumps({'id': shard + n * nshards, 'cls': 'mx-' + name, 'cfg': {'lmtp': False, 'pipelining': True, 'kind': 'smtp', 'deadline': 0,
+                                    'stages': ['dns'] + sorted(script)}, 'ev': ev}, separators=(',', ':')) + '\n')
+                n += 1
+    # recipient without a domain: permanent
+    if shard == 2:
+        from slimta.envelope import Envelope as _E
+        relay = mxmod.MxSmtpRelay()
+        env = _E('s@x', ['no-domain-here'])
+        env.parse(b'Subject: t\r\n\r\nb\r\n')
+        ev = [{'t': 'call', 'req': 1, 'nrcpt': 1, 'now': 0}, {'t': 'peer', 'stage': 'dns', 'i': 0, 'act': 'code', 'code': 550, 'conn': 0, 'trans': 0, 'now': 0}]
+        try:
+            relay.attempt(env, 0)
+            ev.append({'t': 'ret', 'req': 1, 'kind': 'whole', 'cls': '', 'per': ['ok'], 'code': 0, 'marker': 0, 'now': 0})
+        except Exception as e:  # noqa
+            from slimta.relay import PermanentRelayError as _P, TransientRelayError as _T
+            ev.append({'t': 'ret', 'req': 1, 'kind': 'raise', 'cls': 'P' if isinstance(e, _P) else 'T' if isinstance(e, _T) else 'other', 'per': [], 'code': 0, 'marker': 0, 'now': 0})
+        ev.append({'t': 'end', 'hung': 0, 'open': 0, 'now': 0})
+        f.write(json.dumps({'id': shard + n * nshards, 'cls': 'mx-nodomain', 'cfg': {'lmtp': False, 'pipelining': True, 'kind': 'smtp', 'deadline': 0, 'stages': ['dns']},
+                            'ev': ev}, separators=(',', ':')) + '\n')
+        n += 1
     f.write(json.dumps({'summary': stats}) + '\n')
     f.close()
 
